@@ -181,6 +181,15 @@ func genPlanC13(rt *rapid.T) *RPlan {
 		add(total, 0)
 		// routing-lost indications while the burst is under way: the repetitions are transmissions like any other
 		// and compete with the senders that are queueing on the send lock
+		// busy indications with a wait *shorter* than the post-send pause, taken in while a pause is running and
+		// senders are queueing: the pause still has to run out (only the pacing clause is judged in this scenario)
+		if p.PauseUs >= 1000 && rapid.Bool().Draw(rt, "short-busy-during-burst") {
+			span := total * per
+			for i := 0; i < rapid.IntRange(1, 4).Draw(rt, "short-busies"); i++ {
+				p.Net = append(p.Net, RNet{AfterUs: rapid.IntRange(100, span/4+300).Draw(rt, "busy-after"), Kind: "busy",
+					WaitMs: rapid.IntRange(0, p.PauseUs/1000).Draw(rt, "short-wait"), Ctl: rapid.SampledFrom([]int{1, 1, 0}).Draw(rt, "busy-ctl")})
+			}
+		}
 		if rapid.Bool().Draw(rt, "lost-during-burst") {
 			span := total * per
 			for i := 0; i < rapid.IntRange(1, 3).Draw(rt, "losts"); i++ {
@@ -243,7 +252,10 @@ func TestC13(t *testing.T) {
 			if n.Kind == "lost" {
 				rec.Class("pacing: routing-lost indications during the burst")
 				contended = true
-				break
+			}
+			if n.Kind == "busy" && p.Scenario == "pacing" {
+				rec.Class("pacing: busy indications with a wait below the pause during the burst")
+				contended = true
 			}
 		}
 		busyTook := false
